@@ -21,8 +21,8 @@ import (
 func init() { register("C09", "model_checking", checkC09) }
 
 var c09Sym = map[string]string{"dq": `"`, "sq": `'`, "bs": `\`, "hash": "#", "lf": "\n", "cr": "\r", "tab": "\t", "lparen": "(",
-	"n": "n", "u": "u", "x": "x", "a": "a", "eacute": "é", "emoji": "😀", "nul": "\x00", "del": "\x7f", "xff": "\xff"}
-var c09SymOrder = []string{"dq", "sq", "bs", "hash", "lf", "cr", "tab", "lparen", "n", "u", "x", "a", "eacute", "emoji", "nul", "del", "xff"}
+	"n": "n", "u": "u", "x": "x", "a": "a", "eacute": "é", "emoji": "😀", "nul": "\x00", "del": "\x7f", "xff": "\xff", "repl": "\ufffd"}
+var c09SymOrder = []string{"dq", "sq", "bs", "hash", "lf", "cr", "tab", "lparen", "n", "u", "x", "a", "eacute", "emoji", "nul", "del", "xff", "repl"}
 var c09TChars = []string{`"`, `\`, "n", "a", "#", "\n"}
 
 func c09Form(rec tlaval.Rec) (literal.Form, string) {
@@ -163,7 +163,7 @@ func parseTotal(src string) (problem string) {
 
 func checkC09(r *kit.Run) {
 	r.Assumptions = []string{
-		"strings / byte sequences: every sequence of <= L symbols of the 17-symbol alphabet of CueLiteral.tla (quotes, backslash, #, LF, CR, TAB, '(', the letters n u x a, é, 😀, NUL, DEL, 0xFF for bytes) x the 48 quoting forms; candidate literal texts over { \" \\ n a # LF } up to length 7 (thorough 8); token soups of up to 3 (thorough 4) tokens from the 36-token alphabet of CueTokens.tla",
+		"strings / byte sequences: every sequence of <= L symbols of the 18-symbol alphabet of CueLiteral.tla (quotes, backslash, #, LF, CR, TAB, '(', the letters n u x a, é, 😀, NUL, DEL, a validly encoded U+FFFD, 0xFF for bytes) x the 48 quoting forms; candidate literal texts over { \" \\ n a # LF } up to length 7 (thorough 8); token soups of up to 3 (thorough 4) tokens from the 36-token alphabet of CueTokens.tla",
 		"arbitrary byte strings are not enumerated (see DESIGN.md): totality is claimed for the grammar-shaped soups only",
 	}
 	// ---- 1. quoting round trip ----
